@@ -215,16 +215,16 @@ type knownHdr struct {
 type G struct {
 	t       *rapid.T
 	e       *envT
-	hdrs    []knownHdr  // valid headers announced earlier in this case
-	txs     []*wire.Tx  // transactions sent earlier in this case
-	follow  []msg       // follow-ups made plausible by earlier messages (block for a header, blocktxn ...)
+	hdrs    []knownHdr   // valid headers announced earlier in this case
+	txs     []*wire.Tx   // transactions sent earlier in this case
+	follow  []msg        // follow-ups made plausible by earlier messages (block for a header, blocktxn ...)
 	spentAt map[int]bool // indices of e.spend already used by a generated transaction
 }
 
 func newG(t *rapid.T) *G { return &G{t: t, e: getEnv(), spentAt: map[int]bool{}} }
 
 func (g *G) n(lo, hi int, label string) int { return rapid.IntRange(lo, hi).Draw(g.t, label) }
-func (g *G) chance(pct int) bool           { return g.k(100) < pct }
+func (g *G) chance(pct int) bool            { return g.k(100) < pct }
 
 // k draws uniformly from 0..n-1.  rapid's integer generators favour small values (good for sizes,
 // bad for "which alternative"), its Bool is a fair bit.
